@@ -44,6 +44,8 @@ package internal
 //@   update after-call Write#1: flushed := ret0; flushErr := ret1
 //@   update after-call ScanSnapshot#1: unconsumed := len(ret1)
 //@   gvar lastErr error = zero
+//@   assert after-call ScanSnapshot#1: [scansTheCurrentReaderIntoTheOutput C02 C07] arg0 != nil && arg1 == out
+//@   assert after-call processInner#1: [rendersTheSnapshotJustScannedWithTheGivenSettings C16] arg0 == out && arg1 == p && arg2 == s && arg3 == pf && arg4 == html && arg5 == filter && arg6 == match && arg7 == c
 //@   update after-call ScanSnapshot#1: lastErr := ret2
 //@   at-return [stopsOnlyAtEndOfInputOrOnError C02 C07] result == nil ==> lastErr == io.EOF
 //@   assert after-call MultiReader#1: [scanningResumesAtFirstUnconsumedByte C07] N(ret0) - fetched(ret0) == unconsumed + (N(in) - fetched(in))
@@ -76,6 +78,7 @@ package internal
 //@   assert after-call calcBucketsLengths#1: [widthsComputedForThePrintedFormat C16] arg1 == pf
 //@   assert after-call StackLines#1: [linesUseTheComputedWidths C16] arg0 == p && arg1 == &e.Signature && arg2 == wSrc && arg3 == wPkg && arg4 == pf
 //@   update after-call BucketHeader#1: hdr[rangeindex] := ret0
+//@   assert after-call BucketHeader#1: [headerOfThisBlock C16] arg0 == p && arg1 == e && arg2 == pf && (arg3 <==> len(a.Buckets) > 1)
 //@   update after-call StackLines#1: lines[rangeindex] := ret0
 //@   update after-call io.WriteString#2: pos[rangeindex] := wsn(out) - 1; src[wsn(out) - 1] := rangeindex
 //@   update after-call io.WriteString#3: src[wsn(out) - 1] := rangeindex
@@ -107,6 +110,7 @@ package internal
 //@   assert after-call calcGoroutinesLengths#1: [widthsComputedForThePrintedFormat C16] arg1 == pf
 //@   assert after-call StackLines#1: [linesUseTheComputedWidths C16] arg0 == p && arg1 == &e.Signature && arg2 == wSrc && arg3 == wPkg && arg4 == pf
 //@   update after-call GoroutineHeader#1: hdr[rangeindex] := ret0
+//@   assert after-call GoroutineHeader#1: [headerOfThisBlock C16] arg0 == p && arg1 == e && arg2 == pf && (arg3 <==> len(s.Goroutines) > 1)
 //@   update after-call StackLines#1: lines[rangeindex] := ret0
 //@   update after-call io.WriteString#2: pos[rangeindex] := wsn(out) - 1; src[wsn(out) - 1] := rangeindex
 //@   update after-call io.WriteString#3: src[wsn(out) - 1] := rangeindex
